@@ -133,3 +133,67 @@ Proof.
   { unfold do_close. rewrite Ka, Kb, Kc. cbn. unfold cleanup. cbn. rewrite Hf. cbn. reflexivity. }
   rewrite E. cbn. repeat split. intros w'. unfold do_close. rewrite Ka. reflexivity.
 Qed.
+
+(* ---- requests: nobody hangs, nobody gets a value the peer did not send ---- *)
+Lemma existsb_eqb_in x l : existsb (Nat.eqb x) l = true <-> In x l.
+Proof.
+  rewrite existsb_exists. split.
+  - intros (y & Hy & E). apply Nat.eqb_eq in E. now subst.
+  - intros H. exists x. split; [exact H|apply Nat.eqb_refl].
+Qed.
+
+(* once the side has ended (it reports closed, or its channel is closed) no wait keeps waiting: value or EOFError *)
+Theorem ended_nobody_waits s id : closed (base s) = true \/ chan_open (base s) = false -> wait_outcome s id <> WKeepsWaiting.
+Proof.
+  intros H. unfold wait_outcome. destruct (existsb (Nat.eqb id) (got s)); [discriminate|].
+  destruct (existsb (Nat.eqb id) (failed s)); [discriminate|].
+  destruct H as [H|H]; rewrite H; cbn; [discriminate|]. rewrite orb_true_r. discriminate.
+Qed.
+
+(* a request issued after the end fails with EOFError and leaves nothing registered *)
+Theorem issue_after_end P hr rc s id w : chan_open (base s) = false ->
+  let s' := rstep P hr rc (RIssue id w) s in pend s' = pend s /\ (~ In id (got s) -> wait_outcome s' id = WEofError).
+Proof.
+  intros H. cbn. rewrite H. cbn. split; [reflexivity|]. intros Hn. unfold wait_outcome. cbn [got failed].
+  destruct (existsb (Nat.eqb id) (got s)) eqn:E; [apply existsb_eqb_in in E; contradiction|].
+  cbn. now rewrite Nat.eqb_refl.
+Qed.
+
+(* no phantom values: a request has a value only if its reply was dispatched while it was registered; [got] only grows by RReply *)
+Definition replied (es : list rentry) (id : nat) : Prop := In (RReply id) es.
+Lemma got_step P hr rc e s x : In x (got (rstep P hr rc e s)) -> In x (got s) \/ e = RReply x.
+Proof.
+  destruct e as [id w|id|e0]; cbn.
+  - destruct (negb (chan_open (base s))); [auto|]. destruct w; auto.
+  - destruct (existsb (Nat.eqb id) (pend s)); cbn; [|auto]. intros [<-|H]; auto.
+  - auto.
+Qed.
+Theorem value_only_if_replied P hr rc : forall es s id, wait_outcome (rruns P hr rc es s) id = WValue -> In id (got s) \/ replied es id.
+Proof.
+  intros es s id H.
+  assert (G : In id (got (rruns P hr rc es s))).
+  { unfold wait_outcome in H. destruct (existsb (Nat.eqb id) (got (rruns P hr rc es s))) eqn:E; [now apply existsb_eqb_in|].
+    destruct (existsb _ (failed _)); [discriminate|]. destruct (_ || _); discriminate. }
+  clear H. revert s G. induction es as [|e t IH]; intros s G; cbn in G; [now left|].
+  destruct (IH _ G) as [H|H].
+  - destruct (got_step _ _ _ _ _ _ H) as [H'|H']; [now left|right; left; exact H'].
+  - right. now right.
+Qed.
+
+(* the two together with the first sentence: after ANY history in which the side closed, was told to close or met the failure while
+   serving (last entry e with must_end), every request ever issued on it has its value (if the peer's reply was dispatched) or
+   fails with EOFError - none waits on *)
+Theorem ends_and_nobody_waits P hr rc es e id : core_ok P = true -> must_end P e = true ->
+  let s := rstep P hr rc (RBase e) (rruns P hr rc es rfresh) in wait_outcome s id <> WKeepsWaiting.
+Proof.
+  intros HP Hm. cbn zeta. apply ended_nobody_waits. left. cbn [rstep base].
+  assert (B : base (rruns P hr rc es rfresh) = runs P hr (fold_right (fun x acc => match x with RBase e0 => e0 :: acc | _ => acc end) [] es) fresh).
+  { assert (G : forall s, base (rruns P hr rc es s) = runs P hr (fold_right (fun x acc => match x with RBase e0 => e0 :: acc | _ => acc end) [] es) (base s)).
+    { induction es as [|x t IH]; intros s; [reflexivity|]. cbn [rruns fold_left]. change (fold_left _ t ?a) with (rruns P hr rc t a).
+      rewrite IH. destruct x as [i w|i|e0]; cbn [fold_right].
+      - cbn. destruct (negb (chan_open (base s))); [reflexivity|]. destruct w; reflexivity.
+      - cbn. destruct (existsb (Nat.eqb i) (pend s)); reflexivity.
+      - reflexivity. }
+    apply G. }
+  rewrite B. destruct (ends_clean P hr (fold_right (fun x acc => match x with RBase e0 => e0 :: acc | _ => acc end) [] es) e HP Hm) as (Hc & _). exact Hc.
+Qed.
